@@ -107,7 +107,7 @@ def experiments(srcs, skip=()):
     return pool().map(_exp_job, [(s, skip) for s in srcs], chunksize=max(1, min(2000, len(srcs) // 64)))
 
 
-def pmap(fn, items, chunk=None):
-    if len(items) < 64:
+def pmap(fn, items, chunk=None, force=False):
+    if len(items) < 64 and not force:
         return [fn(x) for x in items]
     return pool().map(fn, items, chunksize=chunk or max(1, min(2000, len(items) // 64)))
